@@ -13,13 +13,13 @@ FAIL = {
     'C06': ('sem', 'no-result', 'symbol'),
     'C07': ('clause', 'no-result', 'rows', 'truevars', 'symbol'),
     'C20': ('clause', 'shape', 'no-result', 'rows', 'symbol'),
-    'C10': ('header', 'rows', 'truevars', 'no-result', 'accept', 'panic'),
+    'C10': ('header', 'rows', 'truevars', 'no-result', 'accept', 'panic', 'symbol'),
     'C11': ('header', 'rows', 'order', 'roundtrip', 'accept', 'byname', 'panic', 'no-result', 'symbol', 'sem', 'shape'),
     'C12': ('panic',),
     'C19': ('member', 'panic', 'sharing'),
     'C15': ('models', 'illformed', 'panic'),
     'C16': ('models', 'illformed', 'panic'),
-    'C17': ('hints', 'illformed', 'panic'),
+    'C17': ('hints', 'models', 'illformed', 'panic'),
     'C18': ('output', 'panic'),
     'C14': ('nodes', 'edges', 'readback', 'graph', 'panic'),
     'C13': ('history', 'handle', 'sharing', 'result', 'no-result', 'shape', 'symbol'),
@@ -51,7 +51,7 @@ TEXT_RULE = {
     'evalwide': 'chains of 6..33 plain literals with a complementary or repeated literal at every distance, flat and bracketed, both connectives; sizes beyond the small spaces: conjunction, disjunction, xor chains, quantifier lists, a De Morgan equivalence, reversed first-appearance order and a 2n-deep nesting over n = 32, 33, 64, 65, 70, 129 variables (thorough up to 257); counting over lists of 8, 11, 14 operands; seeded random fixed-point-free formulas of depth 4 over 20 names',
     'evalord': 'consecutive parses in one thread under four-name orderings that differ only in the middle or at one end; API orderings with gaps: 8 formulas x every injective assignment of ids 0..5 to every subset of <=3 of the names a,b,c,d (685 orderings), incl. formulas with up to five unlisted variables; result, vars, free_vars, names compared, and the answer is compared BY NAME with the default-order answer',
     'evalshadow': 'systematic shadowing: 7 outer binders (exists/forall/lfp/gfp on a, two-name lists, none) x 6 inner binders on the same name x 8 layouts (inner scope closed by a bracket, a list comma or an if-branch, with uses of the name before, after and outside; triple nesting; binders on absent and binder-only names), default order and an API ordering',
-    'sym': 'the NamedSymbol contract the model rests on, all 2304 pairs over 12 ids (0, 1, 2, 7, ids that coincide with 3 or 7 after truncation to 8 / 16 / 32 bits, 2^32, 2^63+2, 2^64-2, 2^64-1) x names {a, b, empty, non-ASCII}: == and cmp / partial_cmp decided by the id alone, equal symbols hash alike (std hasher and the FxHash of a node), nodes over equal symbols are equal, into usize is the id, Display is the name',
+    'sym': 'TruthTableEntry: 30 spellings (the 15 accepted ones and near misses) parsed, is_true / is_false / is_any, Display plain and padded; the NamedSymbol contract the model rests on, all 2304 pairs over 12 ids (0, 1, 2, 7, ids that coincide with 3 or 7 after truncation to 8 / 16 / 32 bits, 2^32, 2^63+2, 2^64-2, 2^64-1) x names {a, b, empty, non-ASCII}: == and cmp / partial_cmp decided by the id alone, equal symbols hash alike (std hasher and the FxHash of a node), nodes over equal symbols are equal, into usize is the id, Display is the name',
     'evalx': 'two separately parsed formulas (two environments) combined by and / or / eq / xor / implies / ite of either environment: 12 fixed pairs and seeded random pairs - the same structure under two spellings of the same ids (p,q,x / req,ack,busy / x,p,q) or unrelated formulas over overlapping ids; seven result diagrams compared',
     'evalid': 'API orderings with arbitrary ids: 8 formula templates x 6 id layouts with one id SOLVED so that the two children of one node are different diagrams with the same FxHash (the words fed to the hasher are recorded and the FxHasher replayed; kept only when the replica agrees with the real get_hash; about 30 orderings, each also inside a conjunction and under a negation), 6 pairs of unrelated diagrams (false / a, true / -a, p / -q, p & c / q | d, ...) made to collide by solving one id forwards and backwards through the hasher, used in 3-8 formulas each incl. fixed points whose iterates then collide with their start value and counting lists whose operands collide (about 24 orderings), plus seeded random formulas over 6 names under random listings with ids near 0, near usize::MAX, powers of two and random 64-bit values; the evaluated diagram and its conversion to BDD<usize> are compared in rank space with the model under the order-isomorphic small ids, and BY NAME with the default-order answer',
     'evallong': 'text handling beyond short inputs, tokenized and evaluated: 4095..70000 blanks / newlines / comment characters before, inside and after a formula; identifiers of 255..5000 characters; CRLF, lone CR, byte order mark, tab, form feed, NBSP, U+2028, zero-width space, combining accents, NUL; open, empty and adjacent comments; counting constants with leading zeros, signs, separators, 2^64-1 and 2^64, non-ASCII digits; nesting depth 10..200 (thorough 400) of brackets, negations, binders, lists, if-then-else',
@@ -62,7 +62,7 @@ TEXT_RULE = {
 
 
 def text(parts, exhaustive=True):
-    ops = {'tok': ['tok'], 'parse': ['parse'], 'eval': ['eval'], 'evalc': ['eval'], 'evalfp': ['eval'], 'evalord': ['eval'], 'evalwide': ['eval'], 'evalq': ['eval'], 'evalshadow': ['eval'], 'sym': ['sym'], 'evalx': ['evalx'], 'evalid': ['evalid'], 'evallong': ['tok', 'eval'], 'evalcoll': ['tok', 'eval']}
+    ops = {'tok': ['tok'], 'parse': ['parse'], 'eval': ['eval'], 'evalc': ['eval'], 'evalfp': ['eval'], 'evalord': ['eval'], 'evalwide': ['eval'], 'evalq': ['eval'], 'evalshadow': ['eval'], 'sym': ['sym', 'tte'], 'evalx': ['evalx'], 'evalid': ['evalid'], 'evallong': ['tok', 'eval'], 'evalcoll': ['tok', 'eval']}
     return dict(suite='text', parts=parts, profile='release', exhaustive=exhaustive,
                 corpus_ops=sorted(set(o for p in parts for o in ops[p])),
                 rule='; '.join('%s: %s' % (p, TEXT_RULE[p]) for p in parts))
@@ -117,7 +117,7 @@ PROPS = {
     'C01': dict(suites=[text(['tok', 'parse', 'eval', 'evalfp', 'evalwide', 'evalq', 'evalshadow', 'evallong', 'sym', 'evalid', 'evalcoll'])]),
     'C08': dict(suites=[text(['tok', 'parse', 'evallong', 'evalcoll'])]),
     'C09': dict(suites=[text(['eval', 'evalwide', 'evalshadow', 'sym', 'evalcoll'])]),
-    'C10': dict(suites=[cli(['grid', 'order', 'size', 'shadow', 'names', 'coll', 'env', 'texts', 'random'])]),
+    'C10': dict(suites=[cli(['grid', 'order', 'size', 'shadow', 'names', 'coll', 'env', 'texts', 'random']), text(['sym'], exhaustive=False)]),
     'C11': dict(suites=[cli(['order', 'names', 'coll', 'random']), text(['evalord', 'evalid', 'sym'])]),
     'C12': dict(suites=[cli(['robustlib', 'robustbin', 'grid', 'size']), text(['evallong'], exhaustive=False), dbg(cli(['robustlib'])), dbg(text(['evallong', 'evalc']))]),
     'C19': dict(suites=[dict(suite='set', parts=[], profile='release', exhaustive=True,
